@@ -336,29 +336,58 @@ func (c *Ctx) vetoRules(a *coreAnchors) {
 			_ = gs
 		}
 		c.check(fwd >= 1, "C05.veto", name+" returns the cancel", f.Pos(), "a vetoing handler must stop the phase: no return forwarding Canceled found")
-		// partial-auto branch: every in-place deletion of the target is dominated by IsAuto() && State.Auto
-		for i, s := range c.sitesIn(f, "method:Delete") {
+	}
+	// partial acceptance: every in-place deletion from the transition's target
+	// (TargetIndexes) is dominated by IsAuto() && State.Auto, counting the
+	// guards at the call sites when the deletion lives in a helper
+	fTIx := c.field(pm, "Transition", "TargetIndexes")
+	isPartialGuards := func(gs []Guard) (bool, bool) {
+		isAuto, autoState := false, false
+		for _, g := range gs {
+			v, neg := stripNot(g.Cond)
+			pol := g.Pol != neg
+			if call, ok := v.(*ssa.Call); ok && callIs(&call.Call, "Transition", "IsAuto") && pol {
+				isAuto = true
+			}
+			if pol && flowsFrom(v, func(x ssa.Value) bool { return fieldOf(x) == a.fAuto || loadOfField(x) == a.fAuto }) {
+				autoState = true
+			}
+		}
+		return isAuto, autoState
+	}
+	emitters := map[string]bool{"emitExitEvents": true, "emitEnterEvents": true, "emitSelfEvents": true, "emitStateStateEvents": true}
+	for _, f := range c.Funcs {
+		if topFunc(f).Pkg == nil || relPkg(topFunc(f).Pkg.Pkg.Path()) != pm {
+			continue
+		}
+		k := 0
+		for _, w := range writesOfFieldIn(f, fTIx) {
+			// an assignment that shrinks the target: TargetIndexes = slices.Delete(...)
+			dcall, ok := stripConv(w.Val).(*ssa.Call)
+			if !ok || calleeName(&dcall.Call) != "Delete" {
+				continue
+			}
+			s := w.Instr
+			k++
 			gs := guardsOf(s.Block())
-			isAuto, autoState, canceled := false, false, false
-			for _, g := range gs {
-				v, neg := stripNot(g.Cond)
-				pol := g.Pol != neg
-				if call, ok := v.(*ssa.Call); ok && callIs(&call.Call, "Transition", "IsAuto") && pol {
-					isAuto = true
-				}
-				if pol && flowsFrom(v, func(x ssa.Value) bool { return fieldOf(x) == a.fAuto || loadOfField(x) == a.fAuto }) {
-					autoState = true
-				}
-				if gCmpConst("", a.tResult, a.vCanceled, true, nil).Match(g) {
-					canceled = true
-				}
-				if gCmpConst("", a.tResult, a.vCanceled, false, nil).Match(g) {
-					canceled = false
+			ia, as := isPartialGuards(gs)
+			key := fmt.Sprintf("%s target deletion%s guard[IsAuto && State.Auto]", funcKey(f), nth(k-1))
+			if emitters[f.Name()] || (ia && as) {
+				c.check(ia && as, "C07.part", key, s.Pos(), fmt.Sprintf("rejecting a single state is allowed only for an Auto state inside an auto mutation; guards=%v", guardStrings(gs)))
+				continue
+			}
+			// helper: every call site must supply the missing guards
+			sites, vals := c.allCallersOf(f)
+			okAll := len(sites) > 0 && len(vals) == 0
+			why := ""
+			for _, cs := range sites {
+				ia2, as2 := isPartialGuards(guardsOf(cs.Instr.Block()))
+				if !((ia || ia2) && (as || as2)) {
+					okAll = false
+					why = fmt.Sprintf("call from %s at %s has guards %v", funcKey(cs.Fn), c.pos(cs.Instr.Pos()), guardStrings(guardsOf(cs.Instr.Block())))
 				}
 			}
-			c.check(isAuto && autoState, "C07.part", fmt.Sprintf("%s target deletion%s guard[IsAuto && State.Auto]", name, nth(i)), s.Pos(),
-				fmt.Sprintf("rejecting a single state is allowed only for an Auto state inside an auto mutation; guards=%v", guardStrings(gs)))
-			_ = canceled
+			c.check(okAll, "C07.part", key, s.Pos(), "the helper drops a state from the target; every caller must establish IsAuto() && State.Auto: "+why)
 		}
 	}
 	c.floor("C05.veto", 6)
@@ -988,4 +1017,48 @@ func variadicElems(v ssa.Value) []ssa.Value {
 		return []ssa.Value{v}
 	}
 	return out
+}
+
+// rulesC05x: handlers are dispatched over a snapshot of the binding list, and
+// the auto path recomputes the final-handler sets.
+func (c *Ctx) rulesC05x(a *coreAnchors) {
+	c.rule("C05.snap", "processHandlers walks a private snapshot of the handler bindings (getHandlers returns a fresh copy): binding or detaching during a transition cannot make a binding be skipped or run twice")
+	c.rule("C05.reenter", "on the auto path Exits/Enters are recomputed (setupExitEnter) unconditionally before the final phase, so final handlers run exactly for the states that changed")
+	gh := c.fn(pm + ":Machine.getHandlers")
+	fH := c.field(pm, "Machine", "handlers")
+	if gh != nil && fH != nil {
+		bad := ""
+		for _, r := range returnsOf(gh) {
+			for _, v := range retVals(r) {
+				if flowsFrom(v, func(x ssa.Value) bool { return loadOfField(x) == fH }) {
+					bad = render(v)
+				}
+			}
+		}
+		c.check(bad == "", "C05.snap", "getHandlers returns a copy of the binding list", gh.Pos(), "returns the live slice ("+bad+"): HandlersBind/HandlersDetach during a transition shift the array under processHandlers' index loop")
+		ph := c.fn(pm + ":Machine.processHandlers")
+		if ph != nil {
+			uses := len(c.sitesIn(ph, funcKey(gh))) >= 1
+			direct := len(readsOfFieldIn(ph, fH)) > 0
+			c.check(uses && !direct, "C05.snap", "processHandlers iterates getHandlers()", ph.Pos(), "the dispatch loop must not read Machine.handlers directly")
+		}
+	}
+	sets := c.sitesIn(a.emitEvents, funcKey(a.setActive))
+	c.check(len(c.sitesIn(a.emitEvents, pm+":Transition.setupExitEnter")) >= 1, "C05.reenter", "emitEvents recomputes Exits/Enters on the auto path", a.emitEvents.Pos(), "no setupExitEnter call in emitEvents: after a partially accepted auto mutation the final handlers run for stale Enters/Exits")
+	for i, s := range c.sitesIn(a.emitEvents, pm+":Transition.setupExitEnter") {
+		gs := guardsOf(s.Block())
+		auto, other := false, ""
+		for _, g := range gs {
+			switch {
+			case gCallTruth("", "Transition", "IsAuto", true).Match(g):
+				auto = true
+			case a.notCheck().Match(g):
+			default:
+				other = render(g.Cond)
+			}
+		}
+		c.check(auto && other == "" && len(sets) == 1 && strictlyBefore(s, sets[0]), "C05.reenter", "emitEvents auto path recomputes Exits/Enters"+nth(i), s.Pos(),
+			fmt.Sprintf("setupExitEnter must run for every auto transition before the final phase; extra condition %q", other))
+	}
+	c.floor("C05.reenter", 1)
 }
